@@ -85,7 +85,7 @@ func expandPath(p string) string {
 	}
 }
 
-// presets for ResetOptionsTo (already ascending, as a message.Options value must be).
+// presets for ResetOptionsTo (0-2 already ascending; 3 unsorted).
 // preset 0: empty; preset 1: 17 short options with repeats (more than the 16-option initial
 // capacity of pool.Message, long enough for the binary search to take several steps);
 // preset 2: contains a 300-byte value (value-buffer growth inside ResetOptionsTo).
@@ -110,6 +110,10 @@ func preset(n, step int) []ent {
 			long[i] = d
 		}
 		return []ent{mk(11, "p"), {15, long}, mk(15, "q")}
+	case 3:
+		// caller-supplied options that are NOT in ascending order (SetupGet(..., opts...) and
+		// ResetOptionsTo accept any list; the result must still be ascending, repeats in input order)
+		return []ent{mk(15, "q1"), mk(4, "e1"), mk(2000, "z1"), mk(11, "p1"), mk(4, "e2"), mk(8, "l1"), mk(15, "q2"), mk(11, "p2")}
 	}
 	panic("unknown preset")
 }
@@ -214,7 +218,7 @@ func optionsAlphabet(level string) []Op {
 			a = append(a, Op{K: "SetLocationPath", P: p})
 		}
 	}
-	for n := 0; n < 3; n++ {
+	for n := 0; n < 4; n++ {
 		a = append(a, Op{K: "ResetOptionsTo", N: n})
 	}
 	// Clone: keep editing the original, the clone is watched; CloneEdit: keep editing the clone,
@@ -296,7 +300,7 @@ func poolAlphabet(level string) []Op {
 			a = append(a, Op{K: "SetPath", P: p})
 		}
 	}
-	for n := 0; n < 3; n++ {
+	for n := 0; n < 4; n++ {
 		a = append(a, Op{K: "ResetOptionsTo", N: n})
 	}
 	// Clone: copy the edited message A into the second message B (created on first use, later
